@@ -433,6 +433,11 @@ func (p *Program) topLevel() {
 		name := p.next()
 		t = p.arraySuffix(t)
 		p.expect(";")
+		_, dupS := p.structs[name.s]
+		_, dupT := p.typedefs[name.s]
+		if dupS || dupT {
+			p.Dups = append(p.Dups, "type name "+name.s+" is defined twice")
+		}
 		p.typedefs[name.s] = t
 		return
 	}
@@ -504,6 +509,9 @@ func (p *Program) topLevel() {
 		return
 	}
 	t := p.parseType()
+	if p.d == GLSL && p.isP("[") { // GLSL array-returning function / array-typed global: T[N] name
+		t = p.arraySuffix(t)
+	}
 	name := p.next()
 	if name.k != 'i' {
 		p.fail("declarator expected")
